@@ -42,7 +42,9 @@ pub struct Fragments {
 impl Fragments {
     pub fn new(data: Vec<u8>, fragment_size: u32) -> Self {
         let fragment_size: u32 = if fragment_size == 0 {
-            data.len() as u32
+            // at least 1, so that an empty frame
+            // does not lead to a fragment size of zero
+            (data.len() as u32).max(1)
         } else {
             fragment_size
         };
